@@ -414,6 +414,10 @@ def run(ctx):
         "net/http recovers it)",
         "resource exhaustion by huge-but-valid sizes (connbuf/iobuf/bufSize of many GB) is not a modelled class",
         "a step that does not return within the deadline is recorded as `hang`, not as a crash",
+        "of the top-level configuration only bad_metrics_max_age is a modelled parameter (the settings around it are typical); "
+        "the table is built the way main() builds it (TOML -> cfg.Config -> TableConfig() -> table.New -> cfg.InitTable), main() "
+        "itself (flags, logging, pid file, listeners) is not run; workable max ages below 1ms (a cleaning ticker of a few ns "
+        "that keeps a core busy) are not sampled",
     ]
     cov["trusted_base"] = ["TLC", "harness/adm driver: concretisation of classes (by construction), child-process exit "
                            "status / stderr parsing; it records only", "Go runtime's panic report on stderr"]
